@@ -27,6 +27,13 @@
 // shared_ptr instances are vstd::shared_ptr (tripwire_extra.hpp): assignments by a client thread to an instance it
 // did not construct itself are a scheduling point + K_FAULT 6; everything else about them is invisible.
 //
+// EarlyUser: a global object defined textually BEFORE the DECLARE_* macros attaches a trigger and a detector to the
+// declared line and to indexed line COUNT-1 during its own static initialisation (instrumentation inactive: no
+// events), as a client's global object may.  The lines must exist by then (on /repo they are function-local statics,
+// built on first use).  If an attachment came back without a line or a valid index was rejected, every case of the
+// process starts with `K_FAULT 0 <700 + bits>` (bit 0/1: trigger/detector on the declared line has no line, bit 2/3:
+// indexed trigger/detector rejected or without a line); the early objects are kept alive for the whole process.
+//
 // Static lines (DECLARE_TRIPLINE / DECLARE_INDEXED_TRIPLINES) live for the whole child process, which
 // runs many cases: the component constructor (driver main thread, not scheduled, not logged) resets
 // them to false through the private accessors, so every case starts from untripped lines, as in the model.
@@ -41,6 +48,44 @@
 #include "driver.hpp"
 
 #define TW_COUNT 3
+struct EarlyUser {
+    int bad = 0;
+    std::unique_ptr<gmlc::concurrency::TripWireTrigger> trigD, trigI;
+    std::unique_ptr<gmlc::concurrency::TripWireDetector> detD, detI;
+    EarlyUser()
+    {
+        using namespace gmlc::concurrency;
+        try {
+            trigD = std::make_unique<TripWireTrigger>();
+            if (!trigD->lineTrigger) bad |= 1;
+        }
+        catch (const std::exception&) {
+            bad |= 1;
+        }
+        try {
+            detD = std::make_unique<TripWireDetector>();
+            if (!detD->lineDetector) bad |= 2;
+        }
+        catch (const std::exception&) {
+            bad |= 2;
+        }
+        try {
+            trigI = std::make_unique<TripWireTrigger>((unsigned int)(TW_COUNT - 1));
+            if (!trigI->lineTrigger) bad |= 4;
+        }
+        catch (const std::exception&) {
+            bad |= 4;
+        }
+        try {
+            detI = std::make_unique<TripWireDetector>((unsigned int)(TW_COUNT - 1));
+            if (!detI->lineDetector) bad |= 8;
+        }
+        catch (const std::exception&) {
+            bad |= 8;
+        }
+    }
+};
+static EarlyUser early_user;  // must stay before the DECLARE_* macros
 DECLARE_TRIPLINE()
 DECLARE_INDEXED_TRIPLINES(TW_COUNT)
 
@@ -72,6 +117,8 @@ struct TripWireComp {
         const bool fresh = c.cfg.size() > 4 && c.cfg[4] == 1;
         static bool dirty = false;  // a case has already run in this process: static lines may have been used
         if (fresh && dirty) std::_Exit(0);
+        if (early_user.bad != 0 && vs::Sched::inst() != nullptr)
+            vs::S().log.push_back(vs::Line{0, vs::K_FAULT, 0, 700 + early_user.bad, vs::MO_NA});
         dirty = true;
         vs::slotreg().reset();
         try {
